@@ -18,13 +18,16 @@
    order, and checks that the labels are the shortest hop counts (Graph!SpecDist). *)
 EXTENDS GraphClasses, SequencesExt
 
+CONSTANTS SparseN, SparseMaxE   \* additionally all graphs on SparseN vertices with at most SparseMaxE edges (0: none)
 VARIABLES V, E, start, sd, que, explored, dist, st, err, steps
 vars == <<V, E, start, sd, que, explored, dist, st, err, steps>>
 
 Orders(S) == LET base == SetToSeq(S)
              IN {[i \in 1..Len(base) |-> p[base[i]]] : p \in Permutations(S)}
 
-Init == /\ \E x \in Domain : V = x.v /\ E = x.e
+Sparse == IF SparseN = 0 THEN {} ELSE
+          {G(VSet(SparseN), X) : X \in {Y \in SUBSET AllPairs(VSet(SparseN)) : Cardinality(Y) <= SparseMaxE}}
+Init == /\ \E x \in Domain \cup Sparse : V = x.v /\ E = x.e
         /\ start \in V
         /\ sd = SpecDist(V, E, start)
         /\ que = <<>> /\ explored = {} /\ dist = [v \in V |-> None]
